@@ -101,4 +101,62 @@ theorem anchorFromParsedData_tie (ext : Ext) (c data : Val) :
   ev_simp
   cases attrVal data "tick" <;> simp [Val.toList?]
 
+/-! ### time signatures: the denominator is two to the written exponent, four when none is written -/
+
+/-- `2**data.lower if data.lower is not None else cls._default_lower_numeral` -/
+def lowerV (data : Val) : M Val :=
+  attrVal data "lower" >>= fun lo => if lo == .none then .ok (.int 4) else evalBin .pow (.int 2) lo
+
+def CTS : String := "()(tick=,timestamp=,upper_numeral=,lower_numeral=,_proximal_bpm_event_index=)"
+
+def tsStampV (ext : Ext) (c data prev bpm : Val) : M Val :=
+  lowerV data >>= fun ln =>
+  (attrVal data "tick" >>= fun tk => hintV prev >>= fun h => ext TS [bpm, tk, h]) >>= fun r => unpack2 r >>= fun p =>
+  attrVal data "tick" >>= fun tk => attrVal data "upper" >>= fun up => ext CTS [c, tk, p.1, up, ln, p.2]
+
+theorem timeSignatureFromParsedData_tie (ext : Ext) (c data prev bpm : Val) :
+    Returns ext Gen.Imp.timeSignatureFromParsedData
+      (initEnv [("cls", c), ("data", data), ("prev_event", prev), ("bpm_events", bpm)] Gen.Imp.timeSignatureFromParsedDataLocals)
+      (tsStampV ext c data prev bpm) := by
+  have h0 : initEnv [("cls", c), ("data", data), ("prev_event", prev), ("bpm_events", bpm)] Gen.Imp.timeSignatureFromParsedDataLocals =
+      [("cls", some c), ("data", some data), ("prev_event", some prev), ("bpm_events", some bpm), ("lower_numeral", none),
+       ("proximal_bpm_event_index", none), ("timestamp", none)] := by
+    simp [initEnv, Gen.Imp.timeSignatureFromParsedDataLocals]
+  rw [h0]
+  unfold Gen.Imp.timeSignatureFromParsedData tsStampV
+  refine Returns.assign_bind _ ?_ ?_
+  · unfold lowerV
+    simp only [evalExpr, bind, Except.bind]
+    simp [lookup]
+    cases attrVal data "lower" with
+    | error e => rfl
+    | ok lo =>
+      by_cases h : lo = Val.none
+      · subst h; simp
+      · have h' : (lo == Val.none) = false := by simpa using h
+        simp [h']
+        intro hc; exact absurd hc h
+  intro ln _
+  refine Returns.unpack2_bind _ ?_ ?_
+  · have hh := hint_expr ext (setVar [("cls", some c), ("data", some data), ("prev_event", some prev), ("bpm_events", some bpm), ("lower_numeral", none),
+       ("proximal_bpm_event_index", none), ("timestamp", none)] "lower_numeral" ln) prev (by simp [lookup, setVar])
+    generalize (Expr.ifExp (.var "prev_event") (.attr (.var "prev_event") "_proximal_bpm_event_index") (.lit (.int 0))) = E at hh ⊢
+    simp only [evalExpr, hh, bind, Except.bind]
+    simp [lookup, setVar, TS]
+    cases attrVal data "tick" with
+    | error e => rfl
+    | ok tk =>
+      cases hintV prev with
+      | error e => rfl
+      | ok h => rfl
+  intro ts idx
+  refine Returns.ret_of _ ?_
+  ev_simp
+  cases attrVal data "tick" with
+  | error e => rfl
+  | ok tk =>
+    cases attrVal data "upper" with
+    | error e => rfl
+    | ok v => simp [Val.toList?, CTS]
+
 end Chartparse.Tie
